@@ -29,6 +29,8 @@ structure Params (α : Type) where
   dim : α
   /-- `self.eps` (the coincidence threshold of the gradient routines; not read by a kernel matrix) -/
   eps : α
+  /-- `self.base_bandwidth`: the configured bandwidth (differs from `bandwidth` after an adaptation; no formula reads it) -/
+  baseBandwidth : α
 
 /-- One in-place element-wise tensor operation. -/
 inductive Op (α : Type)
